@@ -68,6 +68,74 @@ pub fn outside_distance(id: u64, lon: f64, lat: f64) -> f64 {
     best
 }
 
+/// Distance on the sphere (radians) from the point to the cell's REPORTED outline (cell_to_boundary, 32 segments an
+/// edge, judged in the tangent plane at the point, where great circles are straight), 0 when inside; and an allowance for
+/// the chords that stand in for the curved edge nearest to the point (half the deviation of the 32-segment points from
+/// the 16-segment chords of that edge: twice the expected sagitta).  Independent of the forward projection.
+pub fn reported_outline_distance(id: u64, lon: f64, lat: f64) -> Option<(f64, f64)> {
+    let m = 32usize;
+    let ring = cell_to_boundary(id, Some(CellToBoundaryOptions { closed_ring: false, segments: Some(m as i32) })).ok()?;
+    if ring.len() < 3 * m || ring.len() % m != 0 {
+        return None;
+    }
+    let p = unit(LonLat::new(lon, lat));
+    let h = if p[2].abs() < 0.9 { [0.0, 0.0, 1.0] } else { [1.0, 0.0, 0.0] };
+    let mut e1 = cross(p, h);
+    let l = dot(e1, e1).sqrt();
+    for x in e1.iter_mut() {
+        *x /= l;
+    }
+    let e2 = cross(p, e1);
+    let mut pts: Vec<(f64, f64)> = Vec::with_capacity(ring.len());
+    for q in &ring {
+        let u = unit(*q);
+        let d = dot(u, p);
+        if d <= 0.1 {
+            return None;
+        }
+        let g = [u[0] / d - p[0], u[1] / d - p[1], u[2] / d - p[2]];
+        pts.push((dot(g, e1), dot(g, e2)));
+    }
+    let n = pts.len();
+    // crossing number of the ray from the origin along +x
+    let mut inside = false;
+    for j in 0..n {
+        let (a, b) = (pts[j], pts[(j + 1) % n]);
+        if (a.1 > 0.0) != (b.1 > 0.0) {
+            let x = a.0 + (0.0 - a.1) / (b.1 - a.1) * (b.0 - a.0);
+            if x > 0.0 {
+                inside = !inside;
+            }
+        }
+    }
+    if inside {
+        return Some((0.0, 0.0));
+    }
+    let mut best = (f64::INFINITY, 0usize);
+    for j in 0..n {
+        let (a, b) = (pts[j], pts[(j + 1) % n]);
+        let (ex, ey) = (b.0 - a.0, b.1 - a.1);
+        let l2 = ex * ex + ey * ey;
+        let t = if l2 > 0.0 { ((-a.0 * ex - a.1 * ey) / l2).clamp(0.0, 1.0) } else { 0.0 };
+        let (dx, dy) = (a.0 + t * ex, a.1 + t * ey);
+        let d = (dx * dx + dy * dy).sqrt();
+        if d < best.0 {
+            best = (d, j);
+        }
+    }
+    let edge = best.1 / m;
+    let mut sag: f64 = 0.0;
+    for j in (edge * m..(edge + 1) * m).step_by(2) {
+        let (a, mid, b) = (pts[j], pts[(j + 1) % n], pts[(j + 2) % n]);
+        let (ex, ey) = (b.0 - a.0, b.1 - a.1);
+        let l = (ex * ex + ey * ey).sqrt();
+        if l > 0.0 {
+            sag = sag.max(((mid.0 - a.0) * ey - (mid.1 - a.1) * ex).abs() / l);
+        }
+    }
+    Some((best.0, 0.5 * sag))
+}
+
 pub fn unit(ll: LonLat) -> [f64; 3] {
     let a = AuthalicProjection;
     let lat = a.forward(Radians::new_unchecked(ll.latitude().to_radians())).get();
@@ -87,15 +155,20 @@ pub fn angle(a: [f64; 3], b: [f64; 3]) -> f64 {
 
 pub fn search_c01(rng: &mut Rng, thorough: bool) -> SearchResult {
     let mut r = SearchResult::default();
-    r.rule = "lookups at every resolution 0..29 for points of all kinds (uniform, polar caps, exact poles, antimeridian, face seams and vertices, points hugging cell edges and vertices, longitudes shifted by multiples of 360): the call succeeds, the ID is canonical of the requested resolution, and a5cell_contains_point of the returned cell is positive or within the 1e-11 edge band; lon + 360k (k = -1..1, k = +-1e3, 1e6, 1e9, 1e12, and longitudes just below 2^30..2^52) gives a cell containing the same physical point. non-trivial = distinct (point, resolution) pairs".into();
+    r.rule = "lookups at every resolution 0..29 for points of all kinds (uniform, polar caps, exact poles, antimeridian, face seams and vertices, points 1e-14..1e-2 rad from the 12 face centres, points hugging cell edges and vertices, longitudes shifted by multiples of 360): the call succeeds, the ID is canonical of the requested resolution, and a5cell_contains_point of the returned cell is positive or within the 1e-11 edge band, and for one lookup in four (and all those next to face centres) the point is inside, or within 1e-11 rad plus a chord allowance of, the outline reported by cell_to_boundary (32 segments an edge); lon + 360k (k = -1..1, k = +-1e3, 1e6, 1e9, 1e12, and longitudes just below 2^30..2^52) gives a cell containing the same physical point. non-trivial = distinct (point, resolution) pairs".into();
     let n = if thorough { 1_500_000 } else { 150_000 };
     let mut worst: f64 = 0.0;
+    let mut worst_outline: f64 = 0.0;
     for k in 0..n {
         let res = (k % 30) as i32;
-        let (lon, lat) = if k % 4 == 3 && res >= 2 { edge_hugging_point(rng, res) } else { lookup_point(rng) };
+        let near_centre = k % 16 == 9 && res >= 1;
+        let (lon, lat) = if near_centre { crate::geocorr::centre_region_point(rng) } else if k % 4 == 3 && res >= 2 { edge_hugging_point(rng, res) } else { lookup_point(rng) };
         let lat = lat.clamp(-90.0, 90.0);
         r.evaluations += 1;
         r.nontrivial += 1;
+        if near_centre {
+            r.count("next_to_a_face_centre");
+        }
         let id = match std::panic::catch_unwind(|| lonlat_to_cell(LonLat::new(lon, lat), res)) {
             Ok(Ok(id)) => id,
             other => {
@@ -113,6 +186,17 @@ pub fn search_c01(rng: &mut Rng, thorough: bool) -> SearchResult {
             r.viol(key, format!("lonlat_to_cell(({}, {}), {}) = {:x} does not contain the point: distance to the cell {:e} (containment value {:e})", lon, lat, res, id, d, contains(id, lon, lat)));
             if d > worst {
                 worst = d;
+            }
+        }
+        // the same judged against the outline the library REPORTS for the cell (the inverse projection), which shares
+        // nothing with the forward projection used by the lookup and by the test above
+        if near_centre || k % 4 == 1 || k % 8 == 3 {
+            if let Some((d2, allow)) = reported_outline_distance(id, lon, lat) {
+                r.count("judged_against_reported_outline");
+                worst_outline = worst_outline.max(d2 / (BAND + allow));
+                if !(d2 <= BAND + allow) {
+                    r.viol("lookup:contain:outline", format!("lonlat_to_cell(({}, {}), {}) = {:x}: the point lies {:e} rad outside the outline reported by cell_to_boundary (allowance for curved edges {:e})", lon, lat, res, id, d2, allow));
+                }
             }
         }
         let zone = if lat.abs() >= 89.999 { "pole" } else if lat.abs() >= 65.0 { "polar_cap" } else { "mid" };
@@ -179,6 +263,7 @@ pub fn search_c01(rng: &mut Rng, thorough: bool) -> SearchResult {
             }
         }
     }
+    r.sample(format!("largest distance to the reported outline, as a fraction of the allowed band: {:.3}", worst_outline));
     r.sample(format!("lonlat_to_cell((12.5, 45.25), 9) = {:x}", lonlat_to_cell(LonLat::new(12.5, 45.25), 9).unwrap()));
     let _ = (cell_to_boundary as fn(u64, Option<CellToBoundaryOptions>) -> _, cell_to_lonlat as fn(u64) -> _, random_cell as fn(&mut Rng, i32) -> u64, unit as fn(LonLat) -> [f64; 3], angle as fn([f64; 3], [f64; 3]) -> f64);
     r
@@ -188,7 +273,7 @@ pub fn search_c01(rng: &mut Rng, thorough: bool) -> SearchResult {
 
 pub fn search_c06(_rng: &mut Rng, thorough: bool) -> SearchResult {
     let mut r = SearchResult::default();
-    r.rule = "every row of the two frozen reference tables (generated once from the pinned release v0.6.2: every face x quintant x resolution 0..29 with boundary/random curve positions, uniform points; 36000 points at face seams incl. edge midpoints, dodecahedron vertices, face centres, symmetry lines; and points, mined from 3.2e8 candidates hugging cell edges and vertices, whose lookup is decided by the k-th probe of the neighbourhood search for every k that occurs): lookups whose reference answer contained the point and was stable under a 2e-9 degree perturbation must return the same ID; reported centres and corners must be the same physical points within 1e-9 degrees (rows within 0.1 degree of a pole: 2e-6 degrees, because the reference release itself lost up to 1e-8 rad there, fixed defect D12). non-trivial = distinct table rows".into();
+    r.rule = "every row of the two frozen reference tables (generated once from the pinned release v0.6.2: every face x quintant x resolution 0..29 with boundary/random curve positions, uniform points; 36000 points at face seams incl. edge midpoints, dodecahedron vertices, face centres, symmetry lines; and points, mined from 3.2e8 candidates hugging cell edges and vertices, whose lookup is decided by the k-th probe of the neighbourhood search for every k that occurs): lookups whose reference answer contained the point and was stable under a 2e-9 degree perturbation must return the same ID; reported centres and corners must be the same physical points within 1e-9 degrees (rows within 0.1 degree of a pole: 2e-6 degrees, because the reference release itself lost up to 1e-8 rad there, fixed defect D12). the cell rows are queried a second time regrouped by (resolution, position, quintant, face) so that consecutive queries differ in one field only, each followed by the lookup of the reference centre. non-trivial = distinct table rows".into();
     let g = std::fs::read_to_string("/verif/golden/golden_v062.txt").expect("golden table")
         + &std::fs::read_to_string("/verif/golden/golden_v062_seams.txt").expect("golden table 2")
         + &std::fs::read_to_string("/verif/golden/golden_v062_probes.txt").expect("golden table 3");
@@ -239,6 +324,34 @@ pub fn search_c06(_rng: &mut Rng, thorough: bool) -> SearchResult {
                     break;
                 }
             }
+        }
+    }
+    // second pass over the cell rows in another order: by resolution, position bits, quintant number and only then face,
+    // so that consecutive queries are about cells that share everything but the face (and next, everything but the quintant)
+    {
+        let mut rows: Vec<(u64, f64, f64)> = g.lines().filter(|l| l.starts_with('C')).map(|l| {
+            let w: Vec<&str> = l.split_whitespace().collect();
+            (u64::from_str_radix(w[1], 16).unwrap(), f(w[2]), f(w[3]))
+        }).collect();
+        rows.sort_by_key(|&(id, _, _)| (spec_resolution(id), id & ((1u64 << 58) - 1), (id >> 58) % 5, id >> 58));
+        let mut prev = 0u64;
+        for &(id, clon, clat) in &rows {
+            r.evaluations += 1;
+            r.count("cell_rows_regrouped");
+            let tol = (if clat.abs() > 89.9 { 2e-6f64 } else { 1e-9 }).to_radians();
+            let c = cell_to_lonlat(id).unwrap();
+            let d = angle(unit(c), unit(LonLat::new(clon, clat)));
+            if !(d <= tol) {
+                r.viol("stability:centre", format!("cell_to_lonlat({:x}) directly after a query about {:x} = ({}, {}), reference ({}, {}): {:e} rad apart", id, prev, c.longitude(), c.latitude(), clon, clat, d));
+            }
+            // the lookup of the reference centre, directly after: the cell itself wherever the centre is clear of the edges
+            if spec_resolution(id) >= 1 && clat.abs() < 89.9 {
+                match lonlat_to_cell(LonLat::new(clon, clat), spec_resolution(id)) {
+                    Ok(now) if now == id => {}
+                    other => r.viol("stability:id", format!("lonlat_to_cell(reference centre ({}, {}) of {:x}) directly after a query about {:x} = {:x?}", clon, clat, id, prev, other)),
+                }
+            }
+            prev = id;
         }
     }
     r.exhaustive = true;
@@ -361,6 +474,10 @@ pub fn search_c03(rng: &mut Rng, thorough: bool) -> SearchResult {
             a5::coordinate_systems::Radians::new_unchecked(p),
         ));
         pts.push((ll.longitude() + 360.0 * (rng.range_i(-2, 2) as f64), ll.latitude().clamp(-90.0, 90.0)));
+    }
+    // next to the face centres, where five cells of every resolution >= 1 meet
+    for _ in 0..(if thorough { 600 } else { 120 }) {
+        pts.push(crate::geocorr::centre_region_point(rng));
     }
     for res in 0..=(if thorough { 4 } else { 3 }) {
         let all = a5::uncompact(&[0], res).unwrap();
